@@ -141,8 +141,20 @@ func (d *dagStoreImpl) Create(name string, spec []byte) (string, error) {
 		return "", fmt.Errorf("%w: %s", errDAGFileAlreadyExists, loc)
 	}
 	verifhook.Point("dagstore.create.checked", loc)
+	// O_EXCL: a DAG created under this name since the check above is not overwritten
 	// nolint: gosec
-	return name, os.WriteFile(loc, spec, 0644)
+	f, err := os.OpenFile(loc, os.O_WRONLY|os.O_CREATE|os.O_EXCL, 0644)
+	if err != nil {
+		if os.IsExist(err) {
+			return "", fmt.Errorf("%w: %s", errDAGFileAlreadyExists, loc)
+		}
+		return "", err
+	}
+	_, err = f.Write(spec)
+	if cerr := f.Close(); err == nil {
+		err = cerr
+	}
+	return name, err
 }
 
 func (d *dagStoreImpl) Delete(name string) error {
@@ -359,7 +371,22 @@ func (d *dagStoreImpl) Rename(oldID, newID string) error {
 		return fmt.Errorf("%w: %s", errDAGFileAlreadyExists, newLoc)
 	}
 	verifhook.Point("dagstore.rename.checked", newLoc)
-	return os.Rename(oldLoc, newLoc)
+	if newLoc == oldLoc {
+		return os.Rename(oldLoc, newLoc)
+	}
+	// link + remove instead of rename(2): unlike rename, link fails if a DAG
+	// has appeared under the new name since the check above
+	if err := os.Link(oldLoc, newLoc); err != nil {
+		if os.IsExist(err) {
+			return fmt.Errorf("%w: %s", errDAGFileAlreadyExists, newLoc)
+		}
+		if os.IsNotExist(err) {
+			return err
+		}
+		// file systems without hard links
+		return os.Rename(oldLoc, newLoc)
+	}
+	return os.Remove(oldLoc)
 }
 
 func (d *dagStoreImpl) Find(name string) (*dag.DAG, error) {
